@@ -4,6 +4,7 @@ pub mod c03;
 pub mod c04;
 pub mod c07;
 pub mod c09;
+pub mod c10q;
 pub mod payments;
 pub mod sim;
 
@@ -14,6 +15,8 @@ pub fn main_entry() {
         "C04" => c04::run(cfg),
         "C07" => c07::run(cfg),
         "C09" => c09::run(cfg),
+        // the node-side section of C10 (child of vh-store's C10)
+        "C10" => c10q::run_c10(cfg),
         other => {
             eprintln!("vh-node: unknown property {other}");
             std::process::exit(2);
@@ -27,6 +30,7 @@ pub fn fuzz_table() -> vh_core::secfuzz::Table {
     vec![
         entry("C03", "payment", c03::case_strategy, c03::check),
         entry("C03", "sequence", c03::seq_strategy, c03::check_sequence),
+        entry("C03", "issued_quote", c10q::strategy, c10q::check),
         entry("C04", "address", c04::case_strategy, c04::check),
         entry("C07", "updates", c07::case_strategy, c07::check),
         entry("C07", "same_key_other_kind", c07::mix_strategy, c07::check_mix),
